@@ -47,6 +47,12 @@ type c10frame struct {
 	objPtr   *ssa.Alloc     // the local of W that holds its address, if any
 	objParam *ssa.Parameter // the parameter of CB that receives the address
 
+	// per-signature worker form (the loop body of CB hands each listed manifest to one module function or closure)
+	H         *ssa.Function    // the worker
+	hc        *ssa.Call        // its one call site, inside the loop of CB
+	hmc       *ssa.MakeClosure // H is a closure: where it is made
+	objParams []*ssa.Parameter // further parameters that receive the address of the state object (of H)
+
 	resolved map[ssa.Value]bool // SSA values that are the descriptor Repository.Resolve returned
 
 	memo map[c10cell]c10stores
@@ -64,6 +70,11 @@ func (x *c10frame) isObj(v ssa.Value) bool {
 	}
 	if v == ssa.Value(x.obj) || (x.objParam != nil && v == ssa.Value(x.objParam)) {
 		return true
+	}
+	for _, p := range x.objParams {
+		if v == ssa.Value(p) {
+			return true
+		}
 	}
 	if fv, ok := v.(*ssa.FreeVar); ok && x.bind[fv] == ssa.Value(x.obj) {
 		return true
@@ -148,6 +159,18 @@ func c10AddrUses(addr ssa.Value, out *c10stores) {
 			if addrWritten(u, 0) {
 				out.ok = false
 			}
+		case *ssa.MakeClosure:
+			// the cell is captured once more by a closure nested in this one: its uses there count the same way
+			fn, _ := u.Fn.(*ssa.Function)
+			if fn == nil {
+				out.ok = false
+				continue
+			}
+			for i, b := range u.Bindings {
+				if b == addr && i < len(fn.FreeVars) {
+					c10AddrUses(fn.FreeVars[i], out)
+				}
+			}
 		default:
 			out.ok = false
 		}
@@ -198,19 +221,18 @@ func (x *c10frame) stores(c c10cell) c10stores {
 			}
 		}
 	} else {
-		for _, fn := range []*ssa.Function{x.W, x.A, x.CB} {
-			if fn == nil {
+		done := map[*ssa.Function]bool{}
+		for _, fn := range []*ssa.Function{x.W, x.A, x.CB, x.H} {
+			if fn == nil || done[fn] {
 				continue
 			}
+			done[fn] = true
 			for _, b := range fn.Blocks {
 				for _, in := range b.Instrs {
 					if fa, ok := in.(*ssa.FieldAddr); ok && fa.Field == c.field && x.isObj(fa.X) {
 						c10AddrUses(fa, &out)
 					}
 				}
-			}
-			if fn == x.A && x.A == x.CB {
-				break
 			}
 		}
 	}
@@ -223,6 +245,11 @@ func (x *c10frame) stores(c c10cell) c10stores {
 // (no escape) and a cell with a single store holds either its zero value (before the store) or that value.
 func (x *c10frame) origin(v ssa.Value) ssa.Value {
 	for i := 0; i < 8; i++ {
+		// a parameter of the per-signature worker or of the page worker holds the argument of its one call site
+		if a := x.up(v); a != nil {
+			v = a
+			continue
+		}
 		c, ok := x.cellOfLoad(v)
 		if !ok {
 			return v
@@ -692,4 +719,564 @@ func c10ToOuter(chain []*ssa.Call, l string) string {
 		l = substParams(l, names, descs)
 	}
 	return l
+}
+
+// ---------- the per-signature worker -------------------------------------------
+//
+// The body of the loop over the listed manifests may hand each manifest to one module function, method or closure
+// ("per-signature worker": `ok, err := st.verifyOne(ctx, m)`), which does the fetch, the verification or both, and keeps
+// or returns what it found. The rules about one iteration are then rules about the loop body *with the worker's body in
+// the place of its call*: the worker is entered only from that call (checked), its parameters are the arguments of that
+// call, and it returns into the loop body through one of its exits. Path rules are decided by a case split on that exit:
+//   - "X happens before Y in every iteration" is decided in the function both live in, or across the call (X before the
+//     call / on every path through the worker);
+//   - "after event E (a call returned nil / non-nil) nothing of kind K is reachable" is decided from E's block with the
+//     edges that contradict E removed, first inside the worker, then — for every exit of the worker that is still
+//     reachable — in the loop body from the call site, with the edges removed that contradict the values returned at that
+//     exit (c10Contradicts) or the assumption about E when the exit hands E's result back as it is.
+// Soundness of the case split is the one given for c10DeepCuts: an execution that continues after the worker returned
+// through exit e takes no edge of the caller that is contradicted by the values returned at e.
+
+// c10assume: result idx of call is nil (isNil) or is not nil.
+type c10assume struct {
+	call  *ssa.Call
+	idx   int
+	isNil bool
+}
+
+func c10IsResult(v ssa.Value, call *ssa.Call, idx int) bool {
+	if e, ok := v.(*ssa.Extract); ok {
+		return e.Tuple == ssa.Value(call) && e.Index == idx
+	}
+	if v == ssa.Value(call) && idx == 0 {
+		_, tup := call.Type().(*types.Tuple)
+		return !tup
+	}
+	return false
+}
+
+// c10NilTest: cond evaluating to truth says that o is nil (saysNil) or that it is not.
+func c10NilTest(cond ssa.Value, truth bool) (o ssa.Value, saysNil bool, ok bool) {
+	for {
+		u, isNot := cond.(*ssa.UnOp)
+		if !isNot || u.Op != token.NOT {
+			break
+		}
+		cond, truth = u.X, !truth
+	}
+	bo, isBin := cond.(*ssa.BinOp)
+	if !isBin || (bo.Op != token.EQL && bo.Op != token.NEQ) {
+		return nil, false, false
+	}
+	switch {
+	case isNilConst(bo.Y):
+		o = bo.X
+	case isNilConst(bo.X):
+		o = bo.Y
+	default:
+		return nil, false, false
+	}
+	return o, (bo.Op == token.EQL) == truth, true
+}
+
+// c10AssumeCut: the branch edges of fn that cannot be taken under the assumptions (a nil test of an assumed result
+// with the opposite outcome).
+func c10AssumeCut(fn *ssa.Function, as []c10assume) map[edgeKey]bool {
+	cut := map[edgeKey]bool{}
+	for _, b := range fn.Blocks {
+		iff, isIf := blockTerm(b).(*ssa.If)
+		if !isIf || len(b.Succs) != 2 {
+			continue
+		}
+		for j := 0; j < 2; j++ {
+			o, saysNil, ok := c10NilTest(iff.Cond, j == 0)
+			if !ok {
+				continue
+			}
+			for _, a := range as {
+				if c10IsResult(o, a.call, a.idx) && saysNil != a.isNil {
+					cut[edgeKey{b.Index, j}] = true
+				}
+			}
+		}
+	}
+	return cut
+}
+
+// callee: the module function a call of the callback runs — a static callee (function, method, closure called where
+// it is made), or a closure held in a local that is written exactly once.
+func (x *c10frame) callee(call *ssa.Call) (*ssa.Function, *ssa.MakeClosure) {
+	if call.Call.IsInvoke() {
+		return nil, nil
+	}
+	v := call.Call.Value
+	if fn, ok := v.(*ssa.Function); ok {
+		return fn, nil
+	}
+	if mc, ok := x.origin(v).(*ssa.MakeClosure); ok {
+		fn, _ := mc.Fn.(*ssa.Function)
+		return fn, mc
+	}
+	return nil, nil
+}
+
+// up: v is a parameter of the per-signature worker (or of the page worker the callback forwards to): the argument it
+// receives at the one call site; nil otherwise.
+func (x *c10frame) up(v ssa.Value) ssa.Value {
+	p, ok := v.(*ssa.Parameter)
+	if !ok {
+		return nil
+	}
+	var call *ssa.Call
+	switch {
+	case x.H != nil && x.hc != nil && p.Parent() == x.H:
+		call = x.hc
+	case x.fc != nil && x.CB != x.A && p.Parent() == x.CB:
+		call = x.fc
+	default:
+		return nil
+	}
+	fn := p.Parent()
+	if len(call.Call.Args) != len(fn.Params) {
+		return nil
+	}
+	for i, q := range fn.Params {
+		if q == p {
+			return call.Call.Args[i]
+		}
+	}
+	return nil
+}
+
+// toCB rewrites a printed form of the worker's frame into the frame of the function that calls it.
+func (x *c10frame) toCB(l string) string {
+	if x.H == nil || x.hc == nil || len(x.hc.Call.Args) != len(x.H.Params) {
+		return l
+	}
+	names := make([]string, len(x.H.Params))
+	descs := make([]string, len(x.H.Params))
+	for k, p := range x.H.Params {
+		names[k] = p.Name()
+		descs[k] = desc(x.hc.Call.Args[k])
+	}
+	return substParams(l, names, descs)
+}
+
+// inCallback: fn runs as part of the callback (the page worker or the per-signature worker).
+func (x *c10frame) inCallback(fn *ssa.Function) bool {
+	return fn != nil && (fn == x.CB || (x.H != nil && fn == x.H))
+}
+
+// cbBlocks: the blocks of the callback's code.
+func (x *c10frame) cbBlocks() []*ssa.BasicBlock {
+	out := append([]*ssa.BasicBlock{}, x.CB.Blocks...)
+	if x.H != nil {
+		out = append(out, x.H.Blocks...)
+	}
+	return out
+}
+
+// c10Loads collects the loads of a cell through its address value, followed into the closures that capture it;
+// ok=false when the address is used in a way that is neither a load, a store, a debug reference nor a capture.
+func c10Loads(addr ssa.Value, out *[]*ssa.UnOp) bool {
+	refs := addr.Referrers()
+	if refs == nil {
+		return true
+	}
+	ok := true
+	for _, r := range *refs {
+		switch u := r.(type) {
+		case *ssa.UnOp:
+			*out = append(*out, u)
+		case *ssa.Store, *ssa.DebugRef:
+		case *ssa.MakeClosure:
+			fn, _ := u.Fn.(*ssa.Function)
+			if fn == nil {
+				ok = false
+				continue
+			}
+			for i, b := range u.Bindings {
+				if b == addr && i < len(fn.FreeVars) && !c10Loads(fn.FreeVars[i], out) {
+					ok = false
+				}
+			}
+		default:
+			ok = false
+		}
+	}
+	return ok
+}
+
+// workerOnlyCalledInLoop: the per-signature worker is entered only through its call in the loop body. A function or
+// method: that call is the only reference to it in the package. A closure: it is made once and either called where it
+// is made, or kept in a local that is written once and whose every load is the callee of that call.
+func (x *c10frame) workerOnlyCalledInLoop() (bool, string) {
+	if x.hmc == nil {
+		n := 0
+		for _, fn := range x.w.FuncsOfPkg("") {
+			for _, b := range fn.Blocks {
+				for _, in := range b.Instrs {
+					for _, op := range in.Operands(nil) {
+						if *op == ssa.Value(x.H) {
+							n++
+						}
+					}
+				}
+			}
+		}
+		return n == 1, fmt.Sprintf("%d references to %s (expected: its call in the loop only)", n, fnName(x.H))
+	}
+	for _, r := range *x.hmc.Referrers() {
+		switch u := r.(type) {
+		case *ssa.DebugRef:
+		case *ssa.Call:
+			if u != x.hc || u.Call.Value != ssa.Value(x.hmc) {
+				return false, "the closure is used other than by its call in the loop"
+			}
+			for _, a := range u.Call.Args {
+				if a == ssa.Value(x.hmc) {
+					return false, "the closure is passed on"
+				}
+			}
+		case *ssa.Store:
+			al, isAl := u.Addr.(*ssa.Alloc)
+			if !isAl || u.Val != ssa.Value(x.hmc) {
+				return false, "the closure is stored somewhere"
+			}
+			if s := x.stores(c10cell{al, -1}); !s.ok || len(s.sts) != 1 {
+				return false, "the variable holding the closure is reassigned or escapes"
+			}
+			var loads []*ssa.UnOp
+			if !c10Loads(al, &loads) {
+				return false, "the variable holding the closure escapes"
+			}
+			for _, l := range loads {
+				for _, rr := range *l.Referrers() {
+					if _, dbg := rr.(*ssa.DebugRef); dbg {
+						continue
+					}
+					call, isCall := rr.(*ssa.Call)
+					if !isCall || call != x.hc || call.Call.Value != ssa.Value(l) {
+						return false, "the closure is used other than by its call in the loop (" + x.w.InstrPos(rr) + ")"
+					}
+					for _, a := range call.Call.Args {
+						if a == ssa.Value(l) {
+							return false, "the closure is passed on"
+						}
+					}
+				}
+			}
+		default:
+			return false, "the closure is used other than by its call in the loop (" + x.w.InstrPos(r) + ")"
+		}
+	}
+	return true, ""
+}
+
+// inIter: the instruction runs inside the loop over the listed manifests (in its body, or in the worker called there).
+func (x *c10frame) inIter(in ssa.Instruction, inLoop map[int]bool) bool {
+	switch {
+	case in.Parent() == x.CB:
+		return inLoop[in.Block().Index]
+	case x.H != nil && in.Parent() == x.H:
+		return inLoop[x.hc.Block().Index]
+	}
+	return false
+}
+
+// iterEdges: the branch edges every path of one iteration takes before it reaches the instruction — from the first
+// block of the loop body to the instruction; for an instruction of the worker: to the worker's call, and from the
+// worker's entry to the instruction.
+func (x *c10frame) iterEdges(body *ssa.BasicBlock, in ssa.Instruction) []c10Edge {
+	cfi := x.w.Info(x.CB)
+	switch {
+	case in.Parent() == x.CB:
+		if in.Block() == body {
+			return nil
+		}
+		return c10MustPassEdges(cfi, body, blocksOf(in))
+	case x.H != nil && in.Parent() == x.H:
+		var out []c10Edge
+		if x.hc.Block() != body {
+			out = c10MustPassEdges(cfi, body, blocksOf(x.hc))
+		}
+		if in.Block().Index != 0 {
+			out = append(out, c10MustPassEdges(x.w.Info(x.H), x.H.Blocks[0], blocksOf(in))...)
+		}
+		return out
+	}
+	return nil
+}
+
+// c10Precedes: in fn, every path from the start block to b runs a first.
+func c10Precedes(fi *FnInfo, start *ssa.BasicBlock, a, b ssa.Instruction) bool {
+	if a.Block() == b.Block() {
+		return instrIndex(a) < instrIndex(b)
+	}
+	if b.Block() == start {
+		return false
+	}
+	if a.Block() == start {
+		return true
+	}
+	cut := map[edgeKey]bool{}
+	cutInto(fi, a.Block(), cut)
+	return !fi.reachHit([]state{{start.Index, 0, -1}}, cut, blocksOf(b))
+}
+
+// precedesInIter: on every path of one iteration that reaches b, a ran before (a, b in the loop body or in the worker).
+func (x *c10frame) precedesInIter(body *ssa.BasicBlock, a, b ssa.Instruction) bool {
+	cfi := x.w.Info(x.CB)
+	fa, fb := a.Parent(), b.Parent()
+	switch {
+	case fa == fb && fa == x.CB:
+		return c10Precedes(cfi, body, a, b)
+	case fa == fb && x.H != nil && fa == x.H:
+		// b runs only inside an invocation of the worker, and in that invocation a came first
+		return c10Precedes(x.w.Info(x.H), x.H.Blocks[0], a, b)
+	case fa == x.CB && x.H != nil && fb == x.H:
+		// a precedes the worker's call
+		return c10Precedes(cfi, body, a, x.hc)
+	case x.H != nil && fa == x.H && fb == x.CB:
+		// the worker's call precedes b and the worker cannot return without running a
+		if !c10Precedes(cfi, body, x.hc, b) {
+			return false
+		}
+		if a.Block().Index == 0 {
+			return true
+		}
+		hfi := x.w.Info(x.H)
+		cut := map[edgeKey]bool{}
+		cutInto(hfi, a.Block(), cut)
+		for st := range hfi.reach(entryState(), cut) {
+			if _, isRet := blockTerm(x.H.Blocks[st.b]).(*ssa.Return); isRet {
+				return false
+			}
+		}
+		return true
+	}
+	return false
+}
+
+// c10Exits: the exits of the function reachable from the start states without the cut edges.
+func c10Exits(fi *FnInfo, starts []state, cut map[edgeKey]bool) []c10exit {
+	var out []c10exit
+	for st := range fi.reach(starts, cut) {
+		if r, ok := blockTerm(fi.Fn.Blocks[st.b]).(*ssa.Return); ok {
+			out = append(out, c10exit{r, st})
+		}
+	}
+	sort.Slice(out, func(i, j int) bool {
+		if out[i].st.b != out[j].st.b {
+			return out[i].st.b < out[j].st.b
+		}
+		if out[i].st.p != out[j].st.p {
+			return out[i].st.p < out[j].st.p
+		}
+		return out[i].st.m < out[j].st.m
+	})
+	return out
+}
+
+// c10ExitResult: the k-th value returned at the exit (a phi of the return block resolved by the edge taken).
+func c10ExitResult(e c10exit, k int) ssa.Value {
+	if k < 0 || k >= len(e.ret.Results) {
+		return nil
+	}
+	v := e.ret.Results[k]
+	if p, ok := v.(*ssa.Phi); ok && p.Block() == e.ret.Block() && e.st.p >= 0 && e.st.p < len(p.Edges) {
+		v = p.Edges[e.st.p]
+	}
+	return v
+}
+
+// callerCut: the worker returned through exit e, under the assumptions: the branch edges of the calling function that
+// cannot be taken then.
+func (x *c10frame) callerCut(e c10exit, as []c10assume) map[edgeKey]bool {
+	hfi := x.w.Info(x.H)
+	m := map[edgeKey]bool{}
+	for _, b := range x.CB.Blocks {
+		iff, isIf := blockTerm(b).(*ssa.If)
+		if !isIf || len(b.Succs) != 2 {
+			continue
+		}
+		for j := 0; j < 2; j++ {
+			truth := j == 0
+			hit := false
+			// the exit hands an assumed result back as it is
+			if o, saysNil, ok := c10NilTest(iff.Cond, truth); ok {
+				if k := c10ResultIdx(x.hc, o); k >= 0 {
+					if rv := c10ExitResult(e, k); rv != nil {
+						for _, a := range as {
+							if c10IsResult(rv, a.call, a.idx) && saysNil != a.isNil {
+								hit = true
+							}
+						}
+					}
+				}
+			}
+			if hit || c10Contradicts(hfi, e, x.hc, iff.Cond, truth) {
+				m[edgeKey{b.Index, j}] = true
+			}
+		}
+	}
+	return m
+}
+
+// c10cont: one part of "what can run after the event": a graph, where to start, which edges are removed.
+type c10cont struct {
+	fi     *FnInfo
+	starts []state
+	cut    map[edgeKey]bool
+}
+
+// forward: what can run in this invocation of the callback after `call` returned as assumed — the rest of the function
+// the call is in and, if that is the worker, the loop body from the worker's call site for every way the worker can
+// still return.
+func (x *c10frame) forward(call *ssa.Call, as ...c10assume) []c10cont {
+	F := call.Parent()
+	fi := x.w.Info(F)
+	cut := c10AssumeCut(F, as)
+	starts := []state{{call.Block().Index, 0, -1}}
+	out := []c10cont{{fi, starts, cut}}
+	if x.H != nil && F == x.H {
+		seen := map[string]bool{}
+		for _, e := range c10Exits(fi, starts, cut) {
+			m := x.callerCut(e, as)
+			if k := c10EdgeSetKey(m); !seen[k] {
+				seen[k] = true
+				out = append(out, c10cont{x.w.Info(x.CB), []state{{x.hc.Block().Index, 0, -1}}, m})
+			}
+		}
+	}
+	return out
+}
+
+// yields: v is result idx of `call` — the extracted result itself, or (call made in the worker) the k-th result of the
+// worker's call where every exit the worker can still take after `call` returned as assumed hands that result back at k.
+func (x *c10frame) yields(v ssa.Value, call *ssa.Call, idx int, as ...c10assume) bool {
+	for i := 0; i < 4; i++ {
+		a := x.up(v)
+		if a == nil {
+			break
+		}
+		v = a
+	}
+	if c10IsResult(v, call, idx) {
+		return true
+	}
+	if x.H == nil || call.Parent() != x.H {
+		return false
+	}
+	k := c10ResultIdx(x.hc, v)
+	if k < 0 {
+		return false
+	}
+	hfi := x.w.Info(x.H)
+	exits := c10Exits(hfi, []state{{call.Block().Index, 0, -1}}, c10AssumeCut(x.H, as))
+	if len(exits) == 0 {
+		return false
+	}
+	for _, e := range exits {
+		rv := c10ExitResult(e, k)
+		if rv == nil || !c10IsResult(rv, call, idx) {
+			// an exit that cannot be followed by a use of v (every use of v is behind edges this exit contradicts)
+			// does not matter; without that knowledge: no
+			return false
+		}
+	}
+	return true
+}
+
+// onlyAfterWorkerSuccess: the instruction of the calling function runs only after the worker's call returned from an
+// invocation in which `call` (made in the worker) returned a nil error (result errIdx): the worker's call dominates it,
+// and it is unreachable from that call for every exit the worker takes without running `call` or after `call` failed.
+func (x *c10frame) onlyAfterWorkerSuccess(in ssa.Instruction, call *ssa.Call, errIdx int) bool {
+	if x.H == nil || call.Parent() != x.H || in.Parent() != x.CB {
+		return false
+	}
+	if in.Block() == x.hc.Block() || !x.hc.Block().Dominates(in.Block()) {
+		return false
+	}
+	hfi, cfi := x.w.Info(x.H), x.w.Info(x.CB)
+	type alt struct {
+		e  c10exit
+		as []c10assume
+	}
+	var alts []alt
+	if call.Block().Index != 0 {
+		cut := map[edgeKey]bool{}
+		cutInto(hfi, call.Block(), cut)
+		for _, e := range c10Exits(hfi, entryState(), cut) {
+			alts = append(alts, alt{e, nil})
+		}
+	}
+	failed := []c10assume{{call, errIdx, false}}
+	for _, e := range c10Exits(hfi, []state{{call.Block().Index, 0, -1}}, c10AssumeCut(x.H, failed)) {
+		alts = append(alts, alt{e, failed})
+	}
+	for _, a := range alts {
+		if cfi.reachHit([]state{{x.hc.Block().Index, 0, -1}}, x.callerCut(a.e, a.as), blocksOf(in)) {
+			return false
+		}
+	}
+	return true
+}
+
+// findStateObject: the callback does its work itself (no forwarding with an object argument) and keeps its books in
+// fields of a struct that the outer function allocates: the object whose int field the callback's code stores to. It is
+// reached through a captured variable (the struct itself, or the one local holding its address, written once) or through
+// a parameter of the per-signature worker that receives one of those. Recognised only if it is one object; everything
+// that is then concluded from "these are all the stores to the field" rests on objectDiscipline, as in the forwarding form.
+func (x *c10frame) findStateObject() {
+	var obj, ptr *ssa.Alloc
+	n := 0
+	resolve := func(v ssa.Value) (*ssa.Alloc, *ssa.Alloc) {
+		for i := 0; i < 4; i++ {
+			a := x.up(v)
+			if a == nil {
+				break
+			}
+			v = a
+		}
+		if fv, ok := v.(*ssa.FreeVar); ok {
+			if al, ok := x.bind[fv].(*ssa.Alloc); ok && al.Parent() == x.W && c10IsStructPtr(al.Type()) {
+				return al, nil
+			}
+			return nil, nil
+		}
+		if u, ok := c10IsLoad(v); ok {
+			if fv, ok := u.X.(*ssa.FreeVar); ok {
+				if p, ok := x.bind[fv].(*ssa.Alloc); ok && p.Parent() == x.W {
+					if ps := x.stores(c10cell{p, -1}); ps.ok && len(ps.sts) == 1 {
+						if al, ok := ps.sts[0].Val.(*ssa.Alloc); ok && al.Parent() == x.W && c10IsStructPtr(al.Type()) {
+							return al, p
+						}
+					}
+				}
+			}
+		}
+		return nil, nil
+	}
+	for _, b := range x.cbBlocks() {
+		for _, in := range b.Instrs {
+			st, ok := in.(*ssa.Store)
+			if !ok || !isPlainIntPtr(st.Addr.Type()) {
+				continue
+			}
+			fa, ok := st.Addr.(*ssa.FieldAddr)
+			if !ok {
+				continue
+			}
+			if o, p := resolve(fa.X); o != nil {
+				if obj == nil || o != obj {
+					n++
+				}
+				obj, ptr = o, p
+			}
+		}
+	}
+	if n == 1 {
+		x.obj, x.objPtr = obj, ptr
+	}
 }
